@@ -1655,30 +1655,49 @@ MANIFEST_ENTRY = {
                  'seed/step/index/closed-form definitions, plus Float and exact-rational correspondence runs and an exact '
                  'formal-derivative / automatic-differentiation predicate on prysm\'s own value routines',
     'text': ('PROVED for all inputs (Props/C09.lean, standard axioms; "derivative" = Polynomial.derivative of the value routine run on the '
-             'indeterminate, evaluated at the point; real HasDerivAt for the surfaces): (1) clenshaw_der_correct / clenshaw_der_entries - '
-             'every three-term family over a field, every coefficient list of any length, every derivative order j, every point: row j of the '
-             'table consists of the j-th derivatives of the polynomials alpha_n(X) and its read-out is the j-th derivative of sum s_n p_n(X); '
-             'instances jacobi_sum_clenshaw_der, clenshaw_qbfs_der, clenshaw_q2d_der (incl. the m = 1 correction); '
-             'table_zero_above_degree + seed_is_recurrence justify the seed at index M-jj. (2) jacobi_der for EVERY order and all '
-             'alpha+beta not in {-2,-3,...} (via the contiguous relation P_n^(a,b) = u_n M_n + v_n M_{n-1} + w_n M_{n-2}, M = P^(a+1,b+1), '
-             'proved by induction from the two recurrences, then the differentiated recurrence); instances legendre_der, the Chebyshev '
-             'parameter pairs, Zernike/Qcon (0,m). (3) hermiteHe_der, hermiteH_der, laguerre_der: every order (Laguerre: every shape). '
-             '(4) zernike_der_radial_correct: the radial output of zernike_nm_der is znorm * d/dr[r^|m| P(2r^2-1)] * trig for every (n,m), '
-             'every point; zernike_azimuthal_real. (5) qbfs_sag_slope, qcon_sag_slope: compute_z_zprime_Qbfs/_Qcon return (sag polynomial, '
-             'its derivative) for every coefficient list (length 1 included). (6) q2d_radial_slope / q2d_azimuthal_slope (any commutative '
-             'ring with a derivation; hypotheses instantiated in Q[X]) and q2d_azimuthal_slope_real (real cos/sin). (7) x/raytracing/'
-             'surfaces.py: conic_sag_der_correct (sphere, conic), dir_cos_der_correct, off_axis_conic_der_correct, '
-             'off_axis_conic_sigma_der_correct (HasDerivAt in r and in t, shift along x or y, wherever the radicands are positive), '
-             'q2d_and_der_correct (product rule through u = rho/R). TRANSLATED from the current source each run and proved equal to the '
-             'model (gen_* theorems): seed expression / position M-jj / factor jj (quantified over the requested order j), step, read-write '
-             'indices, loop-start window, coefficient orders and tuple positions, jj > M guard, row 0 = value sweep for the three derivative '
+             'indeterminate, evaluated at the point; real HasDerivAt for the surfaces and the trigonometric factors): (1) clenshaw_der_correct / '
+             'clenshaw_der_entries - every three-term family over a field, every coefficient list of any length, every derivative order j, '
+             'every point: row j of the table consists of the j-th derivatives of the polynomials alpha_n(X) and its read-out is the j-th '
+             'derivative of sum s_n p_n(X); instances jacobi_sum_clenshaw_der, clenshaw_qbfs_der, clenshaw_q2d_der (incl. the m = 1 '
+             'correction); table_zero_above_degree + seed_is_recurrence justify the seed at index M-jj (the model builds a fresh table; that '
+             'the source zeroes the entries above M-jj of a caller buffer is a translated write set + the executed buffer item). '
+             '(2) jacobi_der for EVERY order and all alpha+beta not in {-2,-3,...} (contiguous relation proved by induction, then the '
+             'differentiated recurrence); instances legendre_der, the Chebyshev parameter pairs, Zernike/Qcon (0,m). (3) hermiteHe_der, '
+             'hermiteH_der, laguerre_der: every order (Laguerre: every shape). (4) zernike_nm_der, statements about the model routine '
+             'zernikeDer itself: zernike_der_radial_correct (radial output = znorm * d/dr[r^|m| P(2r^2-1)] * trig, every (n,m), every point) '
+             'and zernike_der_azimuthal_correct (azimuthal output = d/dt of znorm * R * (cos(mt) | sin(|m|t) | 1), real cos/sin, sign and '
+             '|m|-vs-m choice of both branches); zernike_radial / zernike_azimuthal(_real) are generic calculus rules used by these, NOT '
+             'statements about the routine. (5) qbfs_sag_slope, qcon_sag_slope: the second output of compute_z_zprime_Qbfs/_Qcon is the '
+             'derivative of the polynomial that the first output evaluates (conjunct 1 is only "evaluation commutes with the routine"; the '
+             'content is conjunct 2 + the closed form of that polynomial), every coefficient list (length 1 included); over the '
+             'changed-basis coefficients - the link to Qbfs/Qcon is C10. (6) 2D-Q: per azimuthal order q2d_radial_slope / '
+             'q2d_azimuthal_slope(_real); LIST LEVEL q2d_slopes_list_level (the slopes accumulated over all orders, any combination of '
+             'present / absent / empty / unequal cosine and sine lists, are d/du and d/dt of the accumulated sag) and zzQ2d_radial_correct '
+             '(whole routine incl. the m = 0 Qbfs part). (7) x/raytracing/surfaces.py: conic_sag_der_correct (sphere, conic), '
+             'dir_cos_der_correct, off_axis_conic_der_correct, off_axis_conic_sigma_der_correct (HasDerivAt in r and in t, shift along x or '
+             'y, wherever the radicands are positive); q2d_and_der_correct is the bare product rule for arbitrary differentiable parts; '
+             'q2d_and_der_composed_radial / _azimuthal plug the four surface theorems into it: the slopes returned by Q2d_and_der are the '
+             'derivatives of the returned sag zf * sigma^-1 + z_base for ANY departure zf differentiable in u (that compute_z_zprime_Q2d '
+             'supplies such a zf is (6)). TRANSLATED from the current source each run and proved equal to the model (gen_* theorems): seed '
+             'expression / position M-jj / factor jj (quantified over the requested order j), step, read-write indices, zeroed write set, '
+             'loop-start window, coefficient orders and tuple positions, jj > M guard, row 0 = value sweep for the three derivative '
              'routines; closed forms and order/shape shifts of hermite_*_der, laguerre_der, jacobi_der; Hermite and Laguerre value '
              'recurrences; pieces of zernike_nm_der; straight-line bodies of compute_z_zprime_Qbfs/_Qcon (both branches) and the slope terms '
              'of compute_z_zprime_Q2d; the bodies of sphere/conic_sag(_der), der_direction_cosine_spheroid, phi_spheroid, '
              'off_axis_conic_sag/_der/_sigma/_sigma_der (both shift branches, for every interpretation of np.sqrt) and the Q2d_and_der '
-             'assembly. MODELLED AND COMPARED: every routine above, the *_der_seq forms (against one-at-a-time evaluation), '
-             'cheby*_der, zernike_nm_der_seq, compute_z_zprime_Q2d and Q2d_and_der end to end.'),
+             'assembly (up to renaming of locals). The "...Structure = true" conjuncts of the gen_* theorems are Booleans computed by the '
+             'translator from the syntax tree (three-valued: a recognised wrong shape is false and fails the proof; an unrecognised '
+             'spelling is reported as untranslatable and printed as TIE-DEGRADED); Lean sees only the Boolean. COMPARED ONLY (executed, no '
+             'theorem about their own recurrences): the nine *_der_seq routines (against one-at-a-time evaluation, orders up to 25 quick / 30 '
+             'thorough), the cheby*_der constant and legendre_der delegation (instances of (2) but not translated), zernike_nm_der_seq, '
+             'compute_z_zprime_Q2d and Q2d_and_der end to end. EXECUTED INPUT FORMS: float64 / float32 / int64 / int32 / 0-d / 2-D / 3-D / '
+             'strided coordinate arrays (Python and NumPy scalars where the docstring allows them), list / tuple / ndarray (int, f32, f64) '
+             'coefficients evaluated twice on the same objects, zeroed and dirty caller alphas buffers, signed m, cm0=None, the boundary '
+             'points r=0, u=0, u=1, x=+-1, rho=0.'),
     'note': ('partial: the Python loops / NumPy plumbing around the translated steps are tied to the model by execution, not by proof; '
-             'cheby*_der (a constant rescaling of jacobi_der) and the *_der_seq sweeps are checked, not separately proved; the surface '
-             'theorems assume positive radicands (inside the domain); rounding is outside every theorem (comparisons at 1e-9 relative).'),
+             'the *_der_seq sweeps and cheby*_der are compared, not separately proved or translated; the structural facts are opaque '
+             'Booleans for Lean; exact Fraction / polynomial-object streams are skipped with a note when the implementation does not '
+             'accept such objects (only failures on ordinary float inputs count); the surface theorems assume positive radicands '
+             '(inside the domain); field semantics x/0 = 0 where Python raises; rounding is outside every theorem (comparisons at 1e-9 '
+             'relative to max(1, |expected|, row max); 1e-4 for float32 inputs).'),
 }
